@@ -230,6 +230,29 @@ def stepSkip : List String → Option String
         | some true => acc ++ "1"
         | some false => acc ++ "0"
         | none => acc ++ "e") "may ")
+  | "mmt" :: ty :: rec :: cond => do
+    let tag ← (match ty with | "i" => some true | "o" => some false | _ => none)
+    let rec ← (rec.splitOn ",").mapM fun s => s.toInt?.map fun v => (⟨tag, v⟩ : DK)
+    let (c, rest) ← parseCond [tag] cond
+    if !rest.isEmpty then none
+    else
+      let fs := List.range (rec.length - 1)
+      some (fs.foldl (fun acc f =>
+        match minMaxMayBe dkDisc c rec f with
+        | some true => acc ++ "1"
+        | some false => acc ++ "0"
+        | none => acc ++ "e") "may ")
+  | "mmn" :: rec :: cond => do
+    -- integer index record with nulls (`N`); a null compares below every value
+    let rec ← (rec.splitOn ",").mapM fun s =>
+      if s == "N" then some (none : Option DK) else s.toInt?.map fun v => some (⟨true, v⟩ : DK)
+    let (c, rest) ← parseCond [true] cond
+    if !rest.isEmpty then none
+    else
+      let (as, corrupted) := minMaxRunNull dkDisc c ⟨true, minInt64 - 1⟩ rec (rec.length - 1) 0 false
+      let txt := as.foldl (fun acc a =>
+        acc ++ (match a with | .yes => "1" | .no => "0" | .err => "e" | .panic => "p")) "may "
+      some (if corrupted then txt ++ " sentinel-corrupted" else txt)
   | "isex" :: mask :: ans :: tree => do
     let (e, rest) ← parseSExpr tree
     if !rest.isEmpty then none
